@@ -9,6 +9,16 @@ def shipped_share(tier):
 
 def c01(rng, index, tier):
     case = travgen.draw_case(rng, "C01", shipped_share(tier), index)
+    if case.get("suite_spec") and case.get("worker_kind") != "mixed" and rng.random() < 0.2:
+        # a second job replaying the first one after pools were (partly) cleaned: previous results say the setup passed
+        # while its states may be gone
+        case.pop("interrupt_at", None)
+        if case["population"] == "residue":
+            case["population"] = "empty"
+        case["plan"] = travgen.draw_plan(rng, case["suite_spec"], failing=rng.choice(["one-flaky", "one-persistent", "random"]), seed=index)
+        case["replay_run"] = draw_replay_run(rng, case)
+        states = [s["state"] for s in case["suite_spec"]["setups"]]
+        case["replay_run"]["wipe"] = rng.choice(["own", "own", rng.sample(states, rng.randint(1, len(states))), None])
     return case
 
 
